@@ -247,6 +247,9 @@ func c20Value(l c20Leaf, idx int, rng *rand.Rand) interface{} {
 		if rng == nil {
 			rng = rand.New(rand.NewSource(int64(1000 + idx%2)))
 		}
+		if l.Path == "applications" && rng.Intn(4) == 0 {
+			return []interface{}{} // the entry SETS the field: no host applications (not the same as leaving it unset)
+		}
 		return c20GenList(l.Elem, rng)
 	}
 	panic("c20: kind " + l.Kind)
@@ -301,6 +304,12 @@ func c20FlattenInto(v interface{}, prefix string, out map[string]string) {
 		return
 	}
 	if v == nil {
+		return
+	}
+	if l, ok := v.([]interface{}); ok && len(l) == 0 {
+		// a layer that sets a list field to the empty list: the field is SET there (it hides the layers below) and what
+		// it delivers is "nothing" - the specification's Unset value as the value of a set field
+		out[prefix] = "-"
 		return
 	}
 	out[prefix] = c20Token(v)
@@ -808,6 +817,80 @@ func c20RandSel(rng *rand.Rand) c20Sel {
 	return s
 }
 
+func c20CopyTree(v interface{}) interface{} {
+	switch x := v.(type) {
+	case c20Tree:
+		out := c20Tree{}
+		for k, y := range x {
+			out[k] = c20CopyTree(y)
+		}
+		return out
+	case []interface{}:
+		out := make([]interface{}, len(x))
+		for i, y := range x {
+			out[i] = c20CopyTree(y)
+		}
+		return out
+	}
+	return v
+}
+
+// c20SmallDelta returns a copy of the section that differs from it in ONE field of one layer: the field is dropped,
+// set (to another value) or - a list field - set to the empty list. Change detection has to notice every one of them.
+func c20SmallDelta(rng *rand.Rand, cs *c20Section, focus []c20Leaf) *c20Section {
+	out := &c20Section{}
+	if cs.Cluster != nil {
+		out.Cluster = c20CopyTree(cs.Cluster).(c20Tree)
+	}
+	for _, e := range cs.Entries {
+		ne := c20Entry{Sel: e.Sel}
+		if e.Tree != nil {
+			ne.Tree = c20CopyTree(e.Tree).(c20Tree)
+		}
+		out.Entries = append(out.Entries, ne)
+	}
+	var target *c20Tree
+	if k := rng.Intn(len(out.Entries) + 1); k < len(out.Entries) {
+		if out.Entries[k].Tree == nil {
+			out.Entries[k].Tree = c20Tree{}
+		}
+		target = &out.Entries[k].Tree
+	} else {
+		if out.Cluster == nil {
+			out.Cluster = c20Tree{}
+		}
+		target = &out.Cluster
+	}
+	l := focus[rng.Intn(len(focus))]
+	// is the leaf present in the target?
+	cur := interface{}(*target)
+	present := true
+	for _, k := range l.Keys {
+		m, ok := cur.(c20Tree)
+		if !ok {
+			present = false
+			break
+		}
+		if cur, ok = m[k]; !ok {
+			present = false
+			break
+		}
+	}
+	switch {
+	case present && rng.Intn(2) == 0:
+		t := *target
+		for _, k := range l.Keys[:len(l.Keys)-1] {
+			t = t[k].(c20Tree)
+		}
+		delete(t, l.Keys[len(l.Keys)-1])
+	case l.Kind == "list" && rng.Intn(2) == 0:
+		c20Set(*target, l.Keys, []interface{}{})
+	default:
+		c20Set(*target, l.Keys, c20Value(l, rng.Intn(4), rng))
+	}
+	return out
+}
+
 func c20RandTree(rng *rand.Rand, focus []c20Leaf) c20Tree {
 	t := c20Tree{}
 	for _, l := range focus {
@@ -853,6 +936,7 @@ func c20RandomSegment(rng *rand.Rand, cat map[string][]c20Leaf, j int) []c20Op {
 	}
 	ops := []c20Op{{Op: "reset", Nodes: nodes}, {Op: "get"}}
 	lastText := map[string]string{}
+	lastSec := map[string]*c20Section{} // the section as last rendered from a tree (absent: literal / malformed / no text)
 	lastAbs := map[string]*c20SecAbs{}
 	for _, sec := range c20Sections {
 		lastAbs[sec] = c20Unparsed("absent")
@@ -867,17 +951,50 @@ func c20RandomSegment(rng *rand.Rand, cat map[string][]c20Leaf, j int) []c20Op {
 			continue
 		}
 		op := c20Op{Op: "update", Data: map[string]string{}, Cfg: map[string]*c20SecAbs{}}
+		// one update in four changes ONE field of one layer of ONE section and nothing else in the whole ConfigMap
+		only := ""
+		if rng.Intn(4) == 0 {
+			var cands []string
+			for _, sec := range c20Sections {
+				if lastSec[sec] != nil {
+					cands = append(cands, sec)
+				}
+			}
+			if len(cands) > 0 {
+				only = cands[rng.Intn(len(cands))]
+			}
+		}
 		for _, sec := range c20Sections {
+			if only != "" {
+				if sec == only {
+					cs := c20SmallDelta(rng, lastSec[sec], focus[sec])
+					lastSec[sec] = cs
+					lastText[sec], lastAbs[sec] = c20Render(sec, cs)
+				}
+				if txt, ok := lastText[sec]; ok {
+					op.Data[sec] = txt
+				}
+				op.Cfg[sec] = lastAbs[sec]
+				continue
+			}
 			switch k := rng.Intn(100); {
 			case k < 14: // this key is not touched by the update
+			case k < 30 && lastSec[sec] != nil:
+				// the same section with ONE field of one layer changed
+				cs := c20SmallDelta(rng, lastSec[sec], focus[sec])
+				lastSec[sec] = cs
+				lastText[sec], lastAbs[sec] = c20Render(sec, cs)
 			case k < 22:
 				delete(lastText, sec)
+				delete(lastSec, sec)
 				lastAbs[sec] = c20Unparsed("absent")
 			case k < 36:
 				lastText[sec] = c20Malformed(sec, cat, rng.Intn(1<<20), lastText[sec])
+				delete(lastSec, sec)
 				lastAbs[sec] = c20Unparsed("malformed")
 			case k < 40:
 				lastText[sec] = []string{"{}", " { } "}[rng.Intn(2)]
+				delete(lastSec, sec)
 				lastAbs[sec] = c20Unparsed("parsed")
 			default:
 				cs := &c20Section{}
@@ -892,6 +1009,7 @@ func c20RandomSegment(rng *rand.Rand, cat map[string][]c20Leaf, j int) []c20Op {
 					cs.Entries = append(cs.Entries, en)
 				}
 				lastText[sec], lastAbs[sec] = c20Render(sec, cs)
+				lastSec[sec] = cs
 			}
 			if txt, ok := lastText[sec]; ok {
 				op.Data[sec] = txt
